@@ -17,7 +17,7 @@ var ev *drv.Evidence
 
 func TestMain(m *testing.M) { drv.TestMain(m, func() *drv.Evidence { return ev }) }
 
-const rule = "(a) rapid-generated configurations of 2-4 goroutines (main starts the others at drawn points) running scripts of 1-4 operations over 1-3 channels of capacity 0-2 or nil (plus an optional join channel): send, receive (one- and two-value), close, select with 1-3 send/receive cases with or without default, bounded range, len/cap, Gosched, Goexit; every operation prints one goroutine-tagged line (panics are recovered and printed). Each configuration is compiled once and run under Node with a preload that owns Math.random (pick among ready select cases), Date.now (4 ms time-slice break) and the timer queue (order of timer callbacks): the choice tree reported by the preload is enumerated depth first for three clock patterns up to a budget, then sampled. Oracle: chanmodel, an explicit-state model of Go channels written from the specification that admits every interleaving; the printed trace followed by the way the program ended (normal exit of main, or 'all goroutines are asleep') must be a member of the model's behaviours. The native build of the same configuration is run under three GOMAXPROCS values and must be a member too (otherwise the run stops as inconclusive). (b) rapid-generated Kahn process networks (every channel has one writer and one reader, blocking operations only, struct and array payloads, Gosched sprinkled in) whose output is schedule independent: compared with the native run under eight preload scripts. Non-trivial configuration: the model parks a goroutine in some execution and the scripts contain a close or a select; distinct by configuration text."
+const rule = "(a) rapid-generated configurations of 2-4 goroutines (main starts the others at drawn points) running scripts of 1-4 operations over 1-3 channels of capacity 0-2 or nil (plus an optional join channel): send, receive (one- and two-value), close, select with 1-3 send/receive cases with or without default, bounded range, len/cap, Gosched, Goexit; every operation prints one goroutine-tagged line (panics are recovered and printed). Each configuration is compiled once and run under Node with a preload that owns Math.random (pick among ready select cases), Date.now (4 ms time-slice break) and the timer queue (order of timer callbacks): the choice tree reported by the preload is enumerated depth first for three clock patterns up to a budget, then sampled. Oracle: chanmodel, an explicit-state model of Go channels written from the specification that admits every interleaving; the printed trace followed by the way the program ended (normal exit of main, or 'all goroutines are asleep') must be a member of the model's behaviours. The native build of the same configuration is run under three GOMAXPROCS values and must be a member too (otherwise the run stops as inconclusive). (b) rapid-generated Kahn process networks (every channel has one writer and one reader, blocking operations only, struct and array payloads, Gosched sprinkled in) whose output is schedule independent: compared with the native run under eight preload scripts. (c) five fixed scenarios for the last clause: with a Go function handed to JavaScript (global, argument, wrapper, MakeFunc) a program whose goroutines all block ends silently, without one it reports the deadlock. Non-trivial configuration: the model parks a goroutine in some execution and the scripts contain a close or a select; distinct by configuration text."
 
 var shim string
 
@@ -228,4 +228,5 @@ func TestCheck(t *testing.T) {
 		})
 	})
 	networks(t)
+	handedToJS()
 }
